@@ -411,7 +411,10 @@ def run_conv2d(part, h, w):
                 a = s.bool_array((h, w))
                 case = {"conv2d": [h, w], "window": [wh, ww], "op": op}
                 part.count("evaluations")
-                st, r = attempt(lambda: a.conv2d(wh, ww, op))
+                # the option string as a run-time value (equal to the literal, not the same object), as a caller reading it
+                # from a file or a command line would pass it
+                opval = "".join(list(op)) if (wh + ww) % 2 else op
+                st, r = attempt(lambda: a.conv2d(wh, ww, opval))
                 if st == "raises":
                     part.violation("conv2d:raises-" + type(r).__name__, case, {"exception": repr(r)[:200]})
                     continue
@@ -615,8 +618,65 @@ def run_scale(part, shape):
                 part.violation("scale[four_neighbors]:wrong", {"scale": list(shape), "at": [y, x]}, {})
 
 
+def run_sweep(part, lo, hi):
+    """Every operand count n in [lo, hi): the aggregates over n distinct variables (1-D array, list, split into nested
+    pieces) under the assignments all-false / all-true / only first / only last / alternating / all but last.  A helper
+    that treats some count specially (a block size, a remainder) shows here, whatever the count is."""
+    from cspuz import Solver, alldifferent, count_true, fold_and, fold_or
+
+    for n in range(lo, hi):
+        s = Solver()
+        P = s.bool_array(n)
+        A = s.int_array(n, 0, max(1, n))
+        ids = [v.id for v in P.data]
+        envs = [[False] * n, [True] * n, [k == 0 for k in range(n)], [k == n - 1 for k in range(n)], [k % 2 == 0 for k in range(n)], [k != n - 1 for k in range(n)]]
+        forms = [
+            ("count_true(P)", lambda: count_true(P), lambda v: sum(v)),
+            ("count_true(*list)", lambda: count_true(*list(P.data)), lambda v: sum(v)),
+            ("count_true(halves)", lambda: count_true(P.data[: n // 2], [P.data[n // 2 :]]), lambda v: sum(v)),
+            ("P.count_true()", lambda: P.count_true(), lambda v: sum(v)),
+            ("fold_or(P)", lambda: fold_or(P), lambda v: any(v)),
+            ("P.fold_or()", lambda: P.fold_or(), lambda v: any(v)),
+            ("fold_and(list)", lambda: fold_and(list(P.data)), lambda v: all(v)),
+            ("P.fold_and()", lambda: P.fold_and(), lambda v: all(v)),
+        ]
+        for name, fn, py in forms:
+            part.count("evaluations")
+            case = {"sweep": n, "form": name}
+            st, r = attempt(fn)
+            if st == "raises":
+                part.violation("sweep[%s]:raises-%s" % (name, type(r).__name__), case, {"exception": repr(r)[:200]})
+                continue
+            for vals in envs:
+                part.count("points")
+                got = val(r, dict(zip(ids, vals)))
+                exp = py(vals)
+                if got != exp or type(got) is not type(exp):
+                    part.violation("sweep[%s]:wrong-value" % name, case, {"assignment": "see envs", "got": repr(got), "expected": repr(exp)})
+                    break
+            else:
+                part.add("nontrivial", ("sweep", n, name))
+        part.count("evaluations")
+        st, r = attempt(lambda: alldifferent(A))
+        case = {"sweep": n, "form": "alldifferent(A)"}
+        if st == "raises":
+            part.violation("sweep[alldifferent]:raises-%s" % type(r).__name__, case, {"exception": repr(r)[:200]})
+        else:
+            aid = [v.id for v in A.data]
+            for vals in ([k for k in range(n)], [0] * n, [k if k != n - 1 else 0 for k in range(n)], [k if k != 0 else n - 1 for k in range(n)]):
+                part.count("points")
+                if val(r, dict(zip(aid, vals))) is not (len(set(vals)) == len(vals)):
+                    part.violation("sweep[alldifferent]:wrong-value", case, {"values": "first/last collision patterns"})
+                    break
+            else:
+                part.add("nontrivial", ("sweep", n, "alldifferent"))
+
+
 def worker(shard, part):
     what = shard[0]
+    if what == "sweep":
+        run_sweep(part, shard[1], shard[2])
+        return
     if what == "scale":
         run_scale(part, shard[1])
         return
@@ -650,6 +710,13 @@ def main(tier, seed, only=None):
             shards.append(("neighbors", h, w))
     for sh in ([(257,), (17, 17), (2, 40), (40, 2), (4100,)] if tier == "quick" else [(257,), (300,), (17, 17), (2, 40), (40, 2), (33, 33), (1, 300), (300, 1), (4097,), (4100,), (70, 70), (8200,)]):
         shards.append(("scale", sh))
+    top_n = 330 if tier == "quick" else 1300
+    for lo in range(0, top_n, 30):
+        shards.append(("sweep", lo, min(top_n, lo + 30)))
+    if tier != "quick":
+        shards.append(("sweep", 2490, 2520))
+        shards.append(("sweep", 2520, 2560))
+        shards.append(("sweep", 4090, 4100))
     if only:
         shards = [s for s in shards if s[0] == only]
     run = harness.Run(
@@ -666,7 +733,7 @@ def main(tier, seed, only=None):
         "from 5 leaves x ~20 nestings (varargs, list, tuple, generator, nested, 1-D/2-D arrays mixed with literals).  conv2d on all "
         "shapes <= %dx%d x windows 1..3 x 1..3 x and/or under all 2^(hw) assignments; four_neighbors / four_neighbor_indices at every "
         "coordinate in both call forms.  Scale family (not exhaustive): arrays of 257 and 4100 cells, 17x17, 2x40, 40x2 (thorough 33x33, 1x300, 70x70, 8200) over distinct "
-        "variables, every operator form and aggregate checked on every element under four assignments.  Non-trivial = distinct (form, case) whose result was fully evaluated." % (3 if tier == "quick" else 4, top, top),
+        "variables, every operator form and aggregate checked on every element under four assignments.  Size sweep: the aggregates over n distinct variables for EVERY n in 0..329 (thorough 0..1299, 2490..2559, 4090..4099) under six assignments.  Non-trivial = distinct (form, case) whose result was fully evaluated." % (3 if tier == "quick" else 4, top, top),
     )
     run.assumptions = [
         "== / != across kinds and bare Python bool literals in integer positions are not judged (Python's comparison fallback and bool being an int make the property's wording silent)",
